@@ -245,6 +245,16 @@ def builtin_call(ex, name, e, env):
         if not e.args:
             return ex.alloc(CList(()))
         v = A(0)
+        if isinstance(v, Ref) and isinstance(ex.heap[v.id], ASet):
+            # list(set): the members, each once, in an unspecified order (A7 is not needed: any order must satisfy the post)
+            h = ex.heap[v.id]
+            arr = fresh("setlist", z3.ArraySort(I, I))
+            pos = fresh("setpos", z3.ArraySort(I, I))
+            t, u, xx = fresh("t"), fresh("u"), fresh("x")
+            ex.assumptions.add("builtin.list(set): every member exactly once, order unspecified")
+            ex.fact(z3.ForAll([t], z3.Implies(z3.And(0 <= t, t < h.n), z3.And(z3.Select(h.dom, z3.Select(arr, t)), z3.Select(pos, z3.Select(arr, t)) == t))),
+                    z3.ForAll([xx], z3.Implies(z3.Select(h.dom, xx), z3.And(0 <= z3.Select(pos, xx), z3.Select(pos, xx) < h.n, z3.Select(arr, z3.Select(pos, xx)) == xx))))
+            return ex.alloc(AList(h.n, arr, "int"))
         conc = ex.try_iter_concrete(v)
         if conc is not None:
             return ex.alloc(CList(tuple(conc)))
@@ -266,7 +276,14 @@ def builtin_call(ex, name, e, env):
     if name == "set":
         if not e.args:
             return ex.alloc(ASet(z3.K(I, z3.BoolVal(False)), z3.IntVal(0)))
-        raise Unsupported("set(x)")
+        conc = ex.try_iter_concrete(A(0))
+        if conc is None or not all(is_int(lift(x)) for x in conc):
+            raise Unsupported("set() of a symbolic-length or non-integer sequence")
+        x = z3.Int("x!set")
+        dom = z3.Lambda([x], z3.Or(*[x == lift(c) for c in conc]) if conc else z3.BoolVal(False))
+        n = fresh("setsize")
+        ex.fact(n >= 0, n <= len(conc), (n >= 1) if conc else (n == 0))
+        return ex.alloc(ASet(dom, n))
     if name == "abs":
         v = lift(A(0))
         if isinstance(v, CVal):
@@ -287,6 +304,19 @@ def builtin_call(ex, name, e, env):
         return out
     if name == "sum":
         v = A(0)
+        if isinstance(v, tuple) and v and v[0] == "genexp":
+            _, ge, genv = v
+            gen = ge.generators[0]
+            it = ex.try_iter_concrete(ex.ev(gen.iter, genv))
+            if it is not None and len(ge.generators) == 1 and not gen.ifs:
+                out = z3.IntVal(0)
+                for x in it:
+                    env2 = dict(genv)
+                    ex.bind(gen.target, x, env2)
+                    val = lift(ex.ev(ge.elt, env2))
+                    out, val = numeric_join(out, to_int(val) if is_bool(val) else val)
+                    out = out + val
+                return out
         conc = ex.try_iter_concrete(v) if not (isinstance(v, tuple) and v and v[0] == "genexp") else None
         if conc is not None:
             out = z3.IntVal(0)
